@@ -8,6 +8,7 @@ import GT.Lemmas.FSAViews
 import GT.Lemmas.FSARec
 import GT.Lemmas.FSARename
 import GT.Lemmas.FSABuild2
+import GT.Lemmas.FSAQuery
 import GT.Properties.C09Parse
 
 set_option linter.unusedSectionVars false
@@ -113,6 +114,9 @@ theorem applyOp_refines {s : FSA V L} (hs : s.WF) (op : Op V L) (hp : s.abs.Pre 
     obtain ⟨s', e, w, st, a, -⟩ := rename_spec hs m hp.1 hp.2
     exact ⟨s', e, w, st, a⟩
   | copy => exact ⟨s, rfl, hs, rfl, rfl⟩
+  | hasEdge t h =>
+    obtain ⟨l, hl⟩ := hp
+    exact ⟨s, by simp [FSA.applyOp, hasEdge_of_edge hs hl, Except.map], hs, rfl, rfl⟩
 
 /-- **Coherence over any history.**  Starting from a well-formed automaton, any sequence of
 operations each meeting its precondition in the state it is applied to runs without raising, ends
@@ -144,6 +148,35 @@ theorem reachable_coherent {s : FSA V L} (hs : s.WF) (ops : List (Op V L)) (hp :
   refine ⟨s', e, h1, h2, h3, h4, h5, ?_, ?_⟩
   · intro v l x; rw [mem_edges_iff_abs w.1, a]
   · intro v; rw [← a]; rfl
+
+/-! ## the read accessors are not read-only -/
+
+/-- `has_edge` / `edge_labels` / `edge_label` asked about an existing edge change nothing … -/
+theorem query_edge_noop {s : FSA V L} (hs : s.WF) {t h : V} {l : L} (hst : s.step t l = some h) :
+    s.hasEdge t h = .ok (s, true) ∧ ∃ ls, s.edgeLabels t h = .ok (s, ls) ∧ l ∈ ls := by
+  obtain ⟨ls, hls, hl⟩ := (hs.1.label t l h).1 hst
+  exact ⟨hasEdge_of_edge hs hst, ls, edgeLabels_of_entry hls, hl⟩
+
+/-- … but asked about two vertices that are not joined by an edge they insert an empty entry into
+the outgoing view (`defaultdict`): the label and incoming views and every entry that lists a label
+are untouched — so the three views still describe the same edges — but `NoEmpty` is lost, and
+`recurrent`, which counts entries, may then keep a vertex without outgoing edges (example below).
+Queries are outside the operation list of C09; this is recorded as an observation (D13). -/
+theorem query_nonEdge_breaks_noEmpty {s : FSA V L} (hs : s.WF) {t h : V} (ht : t ∈ s.vertices)
+    (hno : ∀ l, s.step t l ≠ some h) :
+    ∃ s', s.edgeLabels t h = .ok (s', []) ∧ s'.graph = s.graph ∧ s'.inn = s.inn ∧
+      (∀ a b, s'.og a b = if a = t ∧ b = h then some [] else s.og a b) ∧ ¬ s'.NoEmpty :=
+  edgeLabels_of_nonEdge hs ht hno
+
+section QueryExample
+/-- `FSA({0: {'a': 0, 'b': 1}}, [0])`: vertex 1 is a dead end -/
+def exQ : FSA Nat String := fromGraphDict [(0, [("a", 0), ("b", 1)])] [0]
+
+/-- `recurrent()` prunes vertex 1; after the query `has_edge(1, 0)` it no longer does -/
+example : (exQ.recurrent.toOption.map fun s => s.vertices) = some [0] ∧
+    (((exQ.hasEdge 1 0).toOption.bind fun r => r.1.recurrent.toOption).map fun s => s.vertices) = some [0, 1] := by
+  constructor <;> rfl
+end QueryExample
 
 /-! ## the plain set model in closed form -/
 
